@@ -7,7 +7,8 @@ From Coq Require Import List ZArith Bool.
 From RtoscV Require Import Match.PatSpec Match.MatchModel Ports.NameModel Ports.PathModel Ports.WalkModel
      Ports.WalkProofs Ports.WalkRegress Ports.DecProofs Ports.EnumProofs
      Ports.DispatchModel Ports.DispatchProofs Ports.TreeProofs Ports.DispatchWalk
-     Ports.LookupGen Ports.NamesModel Ports.NamesOk Ports.SnipRegress.
+     Ports.LookupGen Ports.NamesModel Ports.NamesOk Ports.SnipRegress
+     Ports.WalkRt Ports.EnabledModel Ports.EnabledProofs Ports.WalkRtExample.
 Import ListNotations.
 Local Open Scope Z_scope.
 
@@ -23,9 +24,10 @@ Proof. exact walk_buffer_restored. Qed.
    '#N' (0 <= N), sub-tree names sequences of components "text/" or "text#N/"
    (at least one); literal text is non-empty and holds no '#' / ':'; what
    follows a '#N' does not begin with a digit; the argument part is empty or
-   ":..." without '#'.  Genuinely excluded: a sub-tree name whose '#N' is not
-   followed by '/' (walk_ports_recurse0 writes a '/' after every index, see
-   notes/C09.md). *)
+   ":..." without '#'.  (A sub-tree name whose '#N' is followed by text - a#2b/ -
+   is outside this shape; since the commit "fix: walk_ports wrote a '/' behind
+   every index ..." the code walks it correctly, see C09_index_slash_pinned_refuted
+   and the tie; the component structure of sport_wf does not describe it.) *)
 Theorem C09_enumerates : forall root,
   Forall sport_wf root ->
   walk None (map render_port root) [] = WOk (spec_addrs root) [47].
@@ -51,9 +53,18 @@ Proof.
     end).
 Qed.
 
-(* pruning: with a runtime object a sub-tree (one-component literal name) is
-   skipped exactly when its child object is NULL or its 'enabled by' port
-   answers false, and visited - with the address extended by its name -
+(* ORACLE-RELATIVE (this theorem and the next): o_null / o_disabled are the
+   model's stand-ins for "the child object pointer is NULL" and "port_is_enabled
+   returns false"; step_port consults them by definition, so the two statements
+   say how the oracle's answers are USED (which address it is asked about, what
+   a skipped sub-tree still reports, that nothing else is skipped), not where the
+   answers come from.  Where they come from: C09_oracle_disabled /
+   C09_oracle_selfoff below (the oracle built by the model of port_is_enabled
+   from the toggles' answers), which the tie runs against the real code.
+
+   pruning: with a runtime object a sub-tree (one-component literal name) is
+   skipped exactly when the oracle reports its child object NULL or its 'enabled
+   by' port answering false, and visited - with the address extended by its name -
    otherwise; without a runtime object it is always visited *)
 Theorem C09_pruning : forall walk_sub rt ids i qn qm qs buf,
   has_char 35 qn = false -> qn <> [] ->
@@ -249,3 +260,112 @@ Theorem C09_index_slash_pinned_refuted :
   recurse0 6 probe slash_name [47] [47] =
     WOk (map (fun a => ([0%nat], 47 :: a)) (expand [Lit [97]; Enum 2; Lit [98; 47]])) [47;97;49;98;47].
 Proof. exact recurse0_slash_pinned_refuted. Qed.
+
+(* ---- the walk with a runtime object, as a whole ---------------------------------- *)
+(* the erase loop's test "the string got shorter than old_end" (the model's
+   explicit failure in loop_ports) never fires: whatever a port of the table does
+   to the buffer, an extension of what it was given comes back - every tree, every
+   oracle, well-formed names or not *)
+Theorem C09_erase_check_dead : forall rt ids i q buf o b,
+  step_port (fun q ids' b => walk_port rt ids' q b) rt ids i q buf = WOk o b ->
+  Nat.ltb (length b) (length buf) = false.
+Proof. exact erase_check_dead. Qed.
+
+(* For EVERY oracle: what the walk reports is the Spec's enumeration with the
+   sub-trees the oracle prunes left out (spec_rt in Ports/WalkRt.v: a pruned
+   sub-tree contributes the enabling port inside it, if there is one; a table
+   switched off through self: contributes its enabling port; every other sub-tree
+   is visited under every expansion of its name), the buffer is restored, and the
+   walk does not fail.  [defined_visit]: wherever the oracle switches a visited
+   table off through self:, that port names a port of the table (the code:
+   assert(ask_port)); it holds for the oracle built from the toggles' answers
+   (C09_selfoff_defined).  Oracle-relative as above. *)
+Theorem C09_enumerates_rt : forall o root,
+  Forall sport_wf root -> defined_visit o [47] root = true ->
+  walk (Some o) (map render_port root) [] = WOk (spec_walk_rt o root) [47].
+Proof. exact walk_enumerates_rt. Qed.
+
+Theorem C09_walk_total_rt : forall o root,
+  Forall sport_wf root -> defined_visit o [47] root = true ->
+  walk (Some o) (map render_port root) [] <> WFail.
+Proof. exact walk_rt_total. Qed.
+
+(* an oracle that prunes nothing: the static enumeration *)
+Theorem C09_enumerates_rt_none : forall p ids pre, spec_rt o_none ids pre p = spec_addrs_port ids pre p.
+Proof. exact spec_rt_none. Qed.
+
+(* ---- where the oracle's answers come from: port_is_enabled ------------------------- *)
+(* Ports/EnabledModel.v: enabled_query = the metadata lookup of 'enabled by', the
+   sub-port test, Ports::operator[] on the asked table, the location string and
+   collapsePath; port_enabled = the toggle's answer (ans t n: toggle n of the
+   object behind the table reached at t); oracle_of = the walk's oracle built from
+   it (the tie's model runs with THIS oracle, computed from the runtime state, not
+   with the generator's list of pruned addresses).
+   The oracle says "disabled" at x exactly when the tree has a sub-tree port q in a
+   table t reached at b, x one of the expansions of q's name at b, for which
+   port_is_enabled(q, loc = x, base = t, relative_to_parent, portname_from_base)
+   returns false *)
+Theorem C09_oracle_disabled : forall ans nulls root buf x,
+  o_disabled (oracle_of ans nulls root buf) x = true <->
+  exists t b q qn m sub, table_at root (norm buf) t b /\ In q t /\ q = Port qn m (Some sub) /\
+    In x (expansions qn b) /\ port_enabled ans q t b x true true = Some false.
+Proof. exact oracle_disabled_iff. Qed.
+
+(* ... and "switched off through self:" at x exactly when a table reached at x has
+   a self: port for which port_is_enabled(self:, loc = x, base = t, not relative)
+   returns false *)
+Theorem C09_oracle_selfoff : forall ans nulls root buf x,
+  o_selfoff (oracle_of ans nulls root buf) x = true <->
+  exists t, table_at root (norm buf) t x /\ self_site ans t x = [(true, x)].
+Proof. exact oracle_selfoff_iff. Qed.
+
+(* the port a pruned sub-tree still reports (sub_toggle of the walk model) is the
+   port port_is_enabled asked - same index, the sub-tree's own address followed by
+   the toggle's name, which collapsePath leaves as it is when it has no ".." *)
+Theorem C09_pruned_reports_asked_port : forall q base loc j n a,
+  enabled_query q base loc true true = QAsk true j n a ->
+  sub_toggle q loc = Some (j, loc ++ n) /\ exists pos, collapse_str (loc ++ n) = Some (pos, a).
+Proof. exact query_inside_sub_toggle. Qed.
+
+Theorem C09_collapse_nodots : forall p cs,
+  components p = Some cs -> Forall (fun c => is_dotdot c = false) cs ->
+  exists pos, collapse_str p = Some (pos, p).
+Proof. exact collapse_nodots. Qed.
+
+(* a table the derived oracle switches off has the enabling port (self: a leaf) *)
+Theorem C09_selfoff_defined : forall ans t b,
+  (forall i sp, index_op t self_key = Some i -> nth_error t i = Some sp -> psub sp = None) ->
+  self_site ans t b = [(true, b)] -> self_toggle t b <> None.
+Proof. exact self_site_defined. Qed.
+
+(* computed: { tg, sub/ (enabled by tg) -> {x}, arr#2/ (enabled by arr#2/on) -> {on, y} },
+   tg and the "on" behind /arr1/ answering false *)
+Theorem C09_enabled_example :
+  enabled_query (Port [115;117;98;47] (Some m_tg) (Some [Port [120] None None])) ex_rt [47;115;117;98;47] true true
+    = QAsk false 0%nat [116;103] [47;116;103] /\
+  enabled_query (Port [97;114;114;35;50;47] (Some m_on)
+                      (Some [Port [111;110;58;58;84;58;70] None None; Port [121] None None]))
+                ex_rt [47;97;114;114;49;47] true true
+    = QAsk true 0%nat [111;110] [47;97;114;114;49;47;111;110] /\
+  off_table ans_ex ex_rt [47] = [(false, [47;115;117;98;47]); (false, [47;97;114;114;49;47])] /\
+  walk_rt ans_ex [] ex_rt [] =
+    WOk [([0%nat], [47;116;103]);
+         ([2%nat; 0%nat], [47;97;114;114;48;47;111;110]); ([2%nat; 1%nat], [47;97;114;114;48;47;121]);
+         ([2%nat; 0%nat], [47;97;114;114;49;47;111;110])] [47] /\
+  walk_rt (fun _ _ => true) [] ex_rt [] = walk None ex_rt [].
+Proof. exact enabled_example. Qed.
+
+(* the hypotheses of C09_enumerates_rt hold for that tree and the oracle built
+   from those answers; 4 of the 6 static addresses are reported *)
+Theorem C09_enumerates_rt_nonvacuous :
+  map render_port ex_rt_s = ex_rt /\
+  Forall sport_wf ex_rt_s /\
+  defined_visit o_ex [47] ex_rt_s = true /\
+  o_disabled o_ex [47;115;117;98;47] = true /\ o_disabled o_ex [47;97;114;114;49;47] = true /\
+  o_disabled o_ex [47;97;114;114;48;47] = false /\
+  spec_walk_rt o_ex ex_rt_s =
+    [([0%nat], [47;116;103]);
+     ([2%nat; 0%nat], [47;97;114;114;48;47;111;110]); ([2%nat; 1%nat], [47;97;114;114;48;47;121]);
+     ([2%nat; 0%nat], [47;97;114;114;49;47;111;110])] /\
+  length (spec_addrs ex_rt_s) = 6%nat.
+Proof. exact walk_rt_nonvacuous. Qed.
